@@ -103,6 +103,10 @@ EventKinds == MapEventKinds \cup {"event"}
 WriteKinds == {"w_update", "w_remove", "w_clear", "w_set"}
 \* what the environment does to the downlink's write side: drop every handle ; close the output channel
 EnvKinds == {"drop_handles", "out_fail"}
+\* the link goes away underneath the downlink (no `unlinked` is delivered): an own write fails
+\* (how = "write") or the input channel ends (how = "read"); whoever runs the downlink either
+\* re-attaches it to fresh channels or gives it up
+LinkLostKind == "link_lost"
 
 \* the notification a write through the handle corresponds to
 AsNotif(w) == CASE w.k = "w_update" -> [k |-> "update", key |-> w.key, val |-> w.val]
@@ -142,6 +146,8 @@ PS(s, d) == [st |-> s, d |-> d]
 PSucc(kind, tou, opt, s, n) ==
     IF s.st = "X" THEN {s}                                        \* terminated: nothing happens any more
     ELSE IF n.k \in EnvKinds THEN {s}                             \* the IO mode is invisible: all laws hold unchanged
+    ELSE IF n.k = LinkLostKind THEN                               \* the current link is over: whatever was folded is discarded;
+        {PS("U", Empty(kind)), PS("X", Empty(kind))}              \* re-attached (a new link may follow) or given up
     ELSE IF n.k \in WriteKinds THEN
         IF opt /\ kind = "map" /\ s.st \in {"L", "S"}
         THEN {PS(s.st, Apply(kind, s.d, AsNotif(n)))}
@@ -179,6 +185,7 @@ PCbsOK(kind, ewns, s, n, cbs, s2) ==
     IF s.st = "X" \/ n.k \in WriteKinds \cup EnvKinds THEN cbs = <<>>
     ELSE CASE n.k = "linked"   -> cbs = <<CbLinked>>
            [] n.k = "unlinked" -> cbs = <<CbUnlinked>>
+           [] n.k = LinkLostKind -> cbs \in {<<>>, <<CbUnlinked>>}     \* the statement is silent on reporting a lost link
            [] n.k = "synced"   ->
                 CASE kind = "map"   -> cbs = <<Cb("synced", 0, 0, 0, MapSeq(s.d))>>
                   [] kind = "value" -> cbs = <<Cb("synced", 0, 0, s.d, <<>>)>>
@@ -372,6 +379,29 @@ OutFail ==
     /\ Record([k |-> "out_fail"], Out(<<>>, FALSE), Out(<<>>, FALSE))
     /\ UNCHANGED <<cf, st, c, h>>
 
+\* The link is lost without an `unlinked`.  Hosted: AgentModel's task gets WriterFailed (an own write
+\* after the output failed) or Stopped (input closed; if linked the downlink first hands itself an
+\* Unlinked, so on_unlinked fires and next_event discards the replica) and calls `reconnect`: if
+\* `can_restart()` (= ~terminate_on_unlinked and the stop trigger - held by the handle - still there)
+\* it `connect()`s the downlink to fresh channels - on the WriterFailed path NO next_event runs, so
+\* connect() alone must discard the replica - otherwise the downlink is dropped.  Client: the task
+\* keeps reading after a failed write and simply ends when its input ends; a stand-alone task cannot
+\* re-attach itself, so its runtime (the harness) runs a fresh task under the same condition.
+Restartable == ~cf.tou /\ io.h
+LinkLost(in, cbsC, cbsH) ==
+    /\ EnvFaults /\ st \in {"U", "L", "S"} /\ Bounded
+    /\ st' = IF Restartable THEN "U" ELSE "X"
+    /\ c' = Empty(cf.kind) /\ h' = Empty(cf.kind)
+    /\ io' = IF Restartable THEN [io EXCEPT !.o = TRUE] ELSE io          \* fresh channels
+    /\ Record(in, Out(cbsC, ~Restartable), Out(cbsH, ~Restartable))
+    /\ UNCHANGED cf
+LinkLostWrite(w) ==
+    /\ io.h /\ ~io.o /\ w \in Writes(cf.kind) /\ w.k \in {"w_update", "w_set"}
+    /\ LinkLost([k |-> LinkLostKind, how |-> "write"] @@ [f \in DOMAIN w \ {"k"} |-> w[f]], <<>>, <<>>)
+LinkLostRead ==
+    /\ EnvFaults
+    /\ LinkLost([k |-> LinkLostKind, how |-> "read"], <<>>, IF st \in {"L", "S"} THEN <<CbUnlinked>> ELSE <<>>)
+
 \* after termination nothing is delivered any more
 AfterStop(n) ==
     /\ st = "X" /\ n \in {Linked, CHOOSE e \in Events(cf.kind) : e.k \in {"update", "event"}} /\ Bounded
@@ -400,6 +430,8 @@ Next == \/ OnLinked \/ OnSynced \/ OnUnlinked
         \/ \E v \in 1..NV : OnValueEvent(v) \/ OnEventEvent(v)
         \/ \E w \in AllWrites : LocalWrite(w)
         \/ DropHandles \/ OutFail
+        \/ \E w \in AllWrites : LinkLostWrite(w)
+        \/ LinkLostRead
         \/ \E n \in AllNotifs : AfterStop(n) \/ IllegalStep(n) \/ Chaos(n)
 
 Spec == Init /\ [][Next]_vars
@@ -435,7 +467,7 @@ UnlinkedHoldsNothing ==
 ImplsAgree ==
     (st # "chaos" /\ NoWritesSinceLinked) =>
         /\ c = h
-        /\ (lastAct.k \notin {"init", "take", "drop"} /\ cf.kind # "event") => lastAct.c = lastAct.h
+        /\ (lastAct.k \notin {"init", "take", "drop", LinkLostKind} /\ cf.kind # "event") => lastAct.c = lastAct.h
 
 HasCb(o, name) == \E i \in 1..Len(o.cbs) : o.cbs[i].cb = name
 \* on_synced fires exactly when the link becomes synced ...
